@@ -833,3 +833,82 @@ def targets(tier='quick'):
 
 
 META = {'level': 'proof', 'explanation': '', 'trusted_base': [], 'clauses': []}
+
+
+# ---- PtTebd.get_augmented_mps: the exported chain state is every gamma and every lambda of the CURRENT chain, in order
+GamOf = z3.Function('gamma_of_chain', V, z3.IntSort(), V)
+LamOf = z3.Function('lambda_of_chain', V, z3.IntSort(), V)
+
+
+def export_registry():
+    R = Registry()
+
+    @model
+    def m_get_gamma(ip, args, kw):
+        return GamOf(args[0].fields['chain'], to_int(args[1]))
+
+    @model
+    def m_get_lambda(ip, args, kw):
+        return LamOf(args[0].fields['chain'], to_int(args[1]))
+
+    @model
+    def m_n(ip, args, kw):
+        return args[0].fields['n']
+
+    @model
+    def m_amps(ip, args, kw):
+        return Obj('AMps', {'gammas': args[0], 'lambdas': args[1] if len(args) > 1 else kw.get('lambdas')})
+    R.models['TMps.get_gamma'] = m_get_gamma
+    R.models['TMps.get_lambda'] = m_get_lambda
+    R.models['TMps.n'] = m_n
+    R.model_properties.add('TMps.n')
+    R.models['mps_mpo.AugmentedMPS'] = m_amps
+
+    def t_gam(ip, frame, k):
+        c = ip.ghost['export_chain']
+        return {'@facts': [k >= 0], 'gammas': Seq(k, lambda j: GamOf(c, j), 'list')}
+
+    def t_lam(ip, frame, k):
+        c = ip.ghost['export_chain']
+        return {'@facts': [k >= 0], 'lambdas': Seq(k, lambda j: LamOf(c, j), 'list')}
+    R.invariants[('pt_tebd.PtTebd.get_augmented_mps', 0)] = LoopInv(t_gam, 'export-gammas')
+    R.invariants[('pt_tebd.PtTebd.get_augmented_mps', 1)] = LoopInv(t_lam, 'export-lambdas')
+    return R
+
+
+def scen_export(started):
+    def scen(ip, repo):
+        n = Int('chain_length')
+        ip.assume(n >= 1)
+        chain = Vc('chain_now')
+        ip.ghost['export_chain'] = chain
+        init = Obj('AMps', {'gammas': Vc('g0'), 'lambdas': Vc('l0')})
+        self_ = mkobj(repo, 'pt_tebd.PtTebd', _initial_augmented_mps=init, _t_mps=(Obj('TMps', {'chain': chain, 'n': n, 'traces': None}) if started else None))
+        return {'args': [self_], 'self': self_, 'n': n, 'chain': chain, 'init': init, 'started': started, 'inputs': {'chain_length': n, 'started': started}}
+    return scen
+
+
+def post_export(ip, ctx, out):
+    if not expect_no_other_exception(ip, out):
+        return
+    r = out.value
+    if not ctx['started']:
+        return ip.prove('tebd/export/initial-state-before-the-first-step', z3.BoolVal(r is ctx['init']))
+    from pyvc.lib import as_seq
+    g, l = as_seq(r.fields['gammas']), as_seq(r.fields['lambdas'])
+    j = fresh_int('j')
+    n, c = ctx['n'], ctx['chain']
+    ip.prove('tebd/export/all-gammas-in-order', z3.And(g.length == n, z3.Implies(z3.And(j >= 0, j < n), g.fn(j) == GamOf(c, j))))
+    ip.prove('tebd/export/all-lambdas-in-order', z3.And(l.length == n - 1, z3.Implies(z3.And(j >= 0, j < n - 1), l.fn(j) == LamOf(c, j))))
+
+
+_t_c14 = targets
+
+
+def targets(tier='quick'):
+    T = _t_c14(tier)
+    RX = export_registry()
+    for started in (True, False):
+        T.append(Target('tebd/export[%s]' % ('running' if started else 'not started'), 'pt_tebd.PtTebd.get_augmented_mps', scen_export(started), post_export, RX, PROP,
+                        replay=rp('tebd_restart')))
+    return T
